@@ -8,7 +8,7 @@ from props.common import sub_rng, diff_runs, replay_generic, corpus_cases
 
 replay = replay_generic
 OPS = ['readnear', 'writenear', 'rmnear', 'lit', 'alias', 'read0', 'readlast', 'readbad', 'write0', 'writebad', 'len', 'app1', 'app2', 'rm0', 'rmlast', 'rmbad', 'rmfrac', 'rmneg', 'rmstr',
-       'elem', 'param', 'readfrac', 'readstr', 'readnumstr']
+       'elem', 'param', 'readfrac', 'readstr', 'readnumstr', 'appelem', 'litelem', 'eqalias']
 
 
 def fmt_num(x):
@@ -79,6 +79,16 @@ def step(m, k, op, tgt, other):
         m.v[other] = list(A) + [val]; return '%s = %s(%s, %d);' % (other, APPEND, tgt, val)
     if op == 'app2':
         m.v[other] = list(A) + [val, val + 1, val + 2]; return '%s = %s(%s, %d, %d, %d);' % (other, APPEND, tgt, val, val + 1, val + 2)
+    if op == 'appelem':
+        # an array appended as an element is the same array (a reference), not a copy
+        m.v[other] = list(A) + [m.v['c']]; return '%s = %s(%s, c);' % (other, APPEND, tgt)
+    if op == 'litelem':
+        m.v[other] = [A, val, A]; return '%s = [%s, %d, %s];' % (other, tgt, val, tgt)
+    if op == 'eqalias':
+        # == on arrays is identity of reference (the empty array equals every empty array: Go compares slice headers)
+        B = m.v[other]
+        m.out.append('true' if (A is B or (len(A) == 0 and len(B) == 0)) else 'false')
+        return '%s %s == %s;' % (PRINT, tgt, other)
     if op == 'rm0':
         if len(A) == 0: m.err = True
         else: m.v[other] = list(A[1:])
@@ -150,6 +160,13 @@ def run(env, tier, seed, broken=None):
         '%s k = 0;\n%s (k < 3) { k = k + 1; %s t = [5]; %s t; t[0] = k; %s %s(t, 9); }\n' % (VAR, WHILE, VAR, PRINT, PRINT, APPEND),
         '%s g() { %s e = []; %s %s(e, 1); }\n%s x = g();\nx[0] = 5;\n%s g();\n%s x;\n' % (FUN, VAR, RETURN, APPEND, VAR, PRINT, PRINT),
         '%s o() { %s {k: [1, 2]}; }\n%s p = o();\np.k[0] = 9;\n%s o();\n%s "s" == "s";\n' % (FUN, RETURN, VAR, PRINT, PRINT),
+    ]
+    # an array stored into itself or into an array it contains: the slot IS the array (no copy); never printed whole
+    shared_literal += [
+        '%s a = [1, 2, 3];\na[0] = a;\n%s %s(a[0]);\n%s a[0][1];\n%s a[0] == a;\na[0][1] = 20;\n%s a[1];\na[0][0][2] = 30;\n%s a[2];\n%s %s(a[0][0][0]);\n%s a[0][0] == a[0];\n' % (VAR, PRINT, LEN, PRINT, PRINT, PRINT, PRINT, PRINT, LEN, PRINT),
+        '%s a = [1, 2];\n%s b = [a, 5];\na[1] = b;\n%s b[0][1][1];\nb[1] = 6;\n%s a[1][1];\n%s a[1] == b;\n%s b[0] == a;\n%s %s(%s(a, a)[2]);\n' % (VAR, VAR, PRINT, PRINT, PRINT, PRINT, PRINT, LEN, APPEND),
+        '%s a = [0, 0];\n%s b = %s(a, a);\nb[2][0] = 7;\n%s a;\n%s b[2] == a;\n%s c = %s(b, 1);\nc[2][1] = 8;\n%s a;\n%s b;\n' % (VAR, VAR, APPEND, PRINT, PRINT, VAR, REMOVE, PRINT, PRINT),
+        '%s put(arr, x) { arr[0] = x; %s arr; }\n%s a = [1, 2];\n%s r = put(a, a);\n%s r == a;\n%s r[0] == a;\n%s %s(r[0][0]);\n' % (FUN, RETURN, VAR, VAR, PRINT, PRINT, PRINT, LEN),
     ]
     for i, sl in enumerate(shared_literal):
         cases.append({'id': 'sl%d' % i, 'src': sl})
